@@ -253,6 +253,7 @@ func main() {
 			}
 			s.nats(natsBroker)
 			s.natsConcurrent(natsBroker)
+			s.slim(natsBroker)
 			s.direct(natsBroker, limits)
 			run.Add("measurement_sends", m.sends)
 		}(proto)
